@@ -148,7 +148,7 @@ def check(ctx):
                    "axioms of floor division: q*N <= L < q*N + N for N > 0"]
     ctx.assumptions = ["len * N does not overflow usize (only possible for zero-sized T with astronomically long slices)",
                        "const-evaluator acceptance is outside this claim (execution)"]
-    cfgs = ["F0", "F1"] if ctx.tier == "quick" else ["F0", "F1", "F2"]
+    cfgs = ["F0", "F1", "F1N"] if ctx.tier == "quick" else ["F0", "F1", "F1N", "F2", "F0N", "F2N"]
     ctx.need(*cfgs)
     for cfg in cfgs:
         n = 0
